@@ -507,6 +507,21 @@ PI_LO = Fraction(3141592653589793, 10 ** 15)
 PI_HI = Fraction(3141592653589794, 10 ** 15)
 
 
+def guarded_check(solver, timeout_ms):
+    """solver.check() with a watchdog: z3's own timeout is not always honoured inside nlsat, so a timer thread
+    interrupts the context a little after the deadline (the result is then `unknown`)"""
+    import threading
+    t = threading.Timer(timeout_ms / 1000.0 + 1.5, solver.ctx.interrupt)
+    t.daemon = True
+    t.start()
+    try:
+        return solver.check()
+    except z3.Z3Exception:
+        return z3.unknown
+    finally:
+        t.cancel()
+
+
 class Ctx:
     def __init__(self, timeout_ms=5000, name=""):
         self.name = name
@@ -516,6 +531,11 @@ class Ctx:
         self.pc = []  # path condition of the current cell
         self.solver = z3.Solver()
         self.solver.set("timeout", timeout_ms)
+        # light solver: preconditions, path condition and sign facts of fresh atoms, but none of the (large)
+        # defining equations of fresh variables.  Fewer constraints => unsat here implies unsat in the full context.
+        self.light = z3.Solver()
+        self.light.set("timeout", 3000)
+        self.light_feasibility = False
         self.angles: list[Angle] = []
         self.roots: list[Val] = [Val(1)]  # candidate non-negative roots
         self.fresh_sqrts = []
@@ -534,6 +554,7 @@ class Ctx:
         for f in fs:
             self.pre.append(f)
             self.solver.add(f)
+            self.light.add(f)
 
     def axiom(self, *fs):
         for f in fs:
@@ -543,6 +564,15 @@ class Ctx:
     def path(self, f):
         self.pc.append(f)
         self.solver.add(f)
+        self.light.add(f)
+
+    def check_light(self, f):
+        self.queries += 1
+        self.light.push()
+        self.light.add(f)
+        r = guarded_check(self.light, 3000)
+        self.light.pop()
+        return str(r)
 
     def pi(self):
         if self._pi is None:
@@ -568,7 +598,7 @@ class Ctx:
         self.solver.push()
         for e in extra:
             self.solver.add(e)
-        r = self.solver.check()
+        r = guarded_check(self.solver, (timeout_ms or self.timeout_ms))
         self.solver.pop()
         if timeout_ms is not None:
             self.solver.set("timeout", self.timeout_ms)
@@ -624,7 +654,9 @@ class Ctx:
         try:
             names = val_vars([a, b])
             if any("!" in n for n in names):
-                return True
+                # expressions over fresh (axiom-defined) variables: an entailment query would have to reason with
+                # their defining equations, which is where z3 stalls; only structural equality resolves them
+                return bool(getattr(self, "resolve_fresh", False))
             for k in (0, 1):
                 env = self._probe_env(k)
                 for n in names:
@@ -688,6 +720,7 @@ class Ctx:
             res = Val.term(y)
             self.fresh_sqrts.append((a, res))
             self.axiom(y >= 0, (y * y) * a.den_term() == a.num_term())
+            self.light.add(y >= 0)
             V.SQRT_ATOMS[y.get_id()] = (y, a)  # holding y keeps its id from being reused
             self.defs.append(("sqrt", V.ge(a, 0)))
             self.resolutions.append(("sqrt", "fresh"))
@@ -794,6 +827,8 @@ class Ctx:
         return res
 
     def asin(self, x: Val):
+        if x.is_zero():
+            return Val(0)
         k = ("asin",) + self.key(x)
         if k in self.memo:
             return self.memo[k]
@@ -821,6 +856,8 @@ class Ctx:
         return res
 
     def atan(self, x: Val):
+        if x.is_zero():
+            return Val(0)
         k = ("atan",) + self.key(x)
         if k in self.memo:
             return self.memo[k]
@@ -937,8 +974,14 @@ class ValDomain:
             self._decided[fid] = (sf, choice)
             self.ctx.path(f if choice else z3.Not(f))
             return choice
-        rt = self.ctx.check(f, timeout_ms=self.feas_timeout)
-        rf = self.ctx.check(z3.Not(f), timeout_ms=self.feas_timeout)
+        if self.ctx.light_feasibility:
+            # over-approximate feasibility (sound: an empty cell only costs time and is dropped by the
+            # reachability check of the cell)
+            rt = self.ctx.check_light(f)
+            rf = self.ctx.check_light(z3.Not(f))
+        else:
+            rt = self.ctx.check(f, timeout_ms=self.feas_timeout)
+            rf = self.ctx.check(z3.Not(f), timeout_ms=self.feas_timeout)
         can_t = rt != "unsat"
         can_f = rf != "unsat"
         if can_t and can_f:
@@ -1142,6 +1185,7 @@ class Cell:
         self.dom = dom
         self.outs = outs
         self.decisions = decisions
+        self.error = None
 
 
 def explore(ir, make_ctx, max_cells=64, wanted=None):
@@ -1155,14 +1199,21 @@ def explore(ir, make_ctx, max_cells=64, wanted=None):
         ctx, in_vals = make_ctx()
         ctx.in_vals = in_vals
         dom = ValDomain(ctx, prefix)
+        err = None
         try:
             outs = evaluate(ir, in_vals, dom, wanted)
         except Infeasible:
             continue
+        except Undefined as e:
+            # an operation with constant operands is undefined on this path (1/0, inf constant): report the
+            # cell and keep exploring the others
+            outs, err = None, str(e)
         for alt in dom.alternatives:
             work.append(alt)
         n += 1
-        yield Cell(ctx, dom, outs, list(dom.decisions))
+        c = Cell(ctx, dom, outs, list(dom.decisions))
+        c.error = err
+        yield c
         if n >= max_cells:
             if work:
                 raise Unsupported(f"more than {max_cells} cells in {ir.name}")
